@@ -69,6 +69,10 @@ func c02Bases() []struct {
 	out = append(out, struct {
 		name string
 		img  []byte
+	}{"image-with-64KiB-DOS-stub", pegen.Build(peLongStubLayout())})
+	out = append(out, struct {
+		name string
+		img  []byte
 	}{"flagged-sections-and-hole-image", pegen.Build(pegen.Layout{PE32Plus: true, Lfanew: 0x40, Secs: []pegen.Sec{{RawSize: 16}, {RawSize: 24, Flags: 0xC0000080}, {RawSize: 8, Gap: 40}}, Trailing: 3})})
 	if b, err := os.ReadFile("/repo/authenticode/testdata/test.pecoff"); err == nil {
 		out = append(out, struct {
